@@ -390,13 +390,28 @@ def option_provenance(ctx, rule='A6'):
 def existence_universe(ctx, rule='A6u'):
     """Both mapping kinds decide "the source node exists" against *all* nodes of the source architecture."""
     for key in (f'{SUP}:SupSelChoiceOptionMapping.resolve', f'{SUP}:SupExistenceMapping.resolve'):
-        fn = ctx.fn(key)
-        src = fn.params[3]
-        tests = [c for c in ast.walk(fn.node) if isinstance(c, ast.Compare) and len(c.ops) == 1 and
-                 isinstance(c.ops[0], (ast.In, ast.NotIn)) and 'str_context()' in norm(c.left) and
-                 isinstance(c.comparators[0], ast.Name)]
-        if not tests:
+        fn0 = ctx.fn(key)
+        # the test may live in a private helper that is handed the source graph
+        found = None
+        for u in unit_functions(ctx.prog, fn0):
+            ts = [c for c in ast.walk(u.node) if isinstance(c, ast.Compare) and len(c.ops) == 1 and
+                  isinstance(c.ops[0], (ast.In, ast.NotIn)) and 'str_context()' in norm(c.left) and
+                  isinstance(c.comparators[0], ast.Name)]
+            if ts:
+                found = (u, ts)
+                break
+        if found is None:
             raise AnalysisError(f'{key}: existence test not found')
+        fn, tests = found
+        src = fn0.params[3]
+        if fn is not fn0:
+            cs = [c for c in calls(fn0) if call_name(c) == fn.name]
+            hp = [q for q in fn.params if q not in ('self', 'cls')]
+            bound = [q for q, a in zip(hp, cs[0].args) if norm(a) == src] if cs else []
+            bound += [k.arg for k in (cs[0].keywords if cs else []) if norm(k.value) == src]
+            if not bound:
+                raise AnalysisError(f'{key}: the helper with the existence test is not handed the source graph')
+            src = bound[0]
         setname = tests[0].comparators[0].id
         defs = [a for a in walk_fn(fn) if isinstance(a, ast.Assign) and norm(a.targets[0]) == setname]
         ok = False
